@@ -235,10 +235,10 @@ def r3_swaps(ctx):
             want = "Ord::min(CoinValue::CoinValue{0: melmint::multiply_frac(%s.%s, Ratio::new(%s($2.outputs, 0).value.0, %s))}, MAX_COINVAL)" % (
                 SW, comp, IDX, sig(q.novers((tl if is_left else tr)[0][1])))
             got = sig(q.novers(v))
-            ok = got == want or got == want.replace("Ord::min(", "").replace(", MAX_COINVAL)", "")
-            if not ok and "pro_rata" in got:
-                ok = None
-        r.check(ok is not False, "rewrite/%s/value" % lab, "payout = multiply_frac(swap_many.%s, own/%s)" % (comp, tot),
+            want2 = "Ord::min(CoinValue::CoinValue{0: melmint::pro_rata(%s.%s, %s($2.outputs, 0).value.0, %s)}, MAX_COINVAL)" % (
+                SW, comp, IDX, sig(q.novers((tl if is_left else tr)[0][1])))
+            ok = got in (want, want2) or got in (want.replace("Ord::min(", "").replace(", MAX_COINVAL)", ""), want2.replace("Ord::min(", "").replace(", MAX_COINVAL)", ""))
+        r.check(bool(ok), "rewrite/%s/value" % lab, "payout = multiply_frac(swap_many.%s, own/%s)" % (comp, tot),
                 "payout of a %s is %s" % (lab, sig(q.novers(q.subst(vals[0], {}, caps)))[:260] if vals else "missing"))
     for bi, e in q.call_exprs(c, "CoinMapping::insert_coin"):
         got = sig(e)
